@@ -17,6 +17,19 @@ type AEAD interface {
 // random value the implementation drew (iv / salt).
 type SealFn func(rnd, pt, ad []byte) []byte
 
+// Lens picks a length: every value in 0..max in the quick tier; in the thorough tier also the
+// listed larger ones (block boundaries).
+func Lens(name string, max int, more ...int) int {
+	if !verifrt.Thorough() {
+		return verifrt.Choice(name, max+1)
+	}
+	k := verifrt.Choice(name, max+1+len(more))
+	if k <= max {
+		return k
+	}
+	return more[k-max-1]
+}
+
 // AD returns an associated-data value: sel in [0,max] is that many symbolic bytes,
 // sel == max+1 is the nil slice.
 func AD(name string, sel, max int) []byte {
@@ -30,10 +43,17 @@ func AD(name string, sel, max int) []byte {
 // per Encrypt (C20), ciphertext == prefix || seal(draw, pt, ad) (C01 format), round trip,
 // nil and empty associated data interchangeable.
 func CheckAEAD(a AEAD, prefix []byte, rndLen int, seal SealFn, maxPT, maxAD int) {
-	n := verifrt.Choice("n", maxPT+1)
-	adSel := verifrt.Choice("adsel", maxAD+2)
+	n := Lens("n", maxPT, 15, 16, 17, 31, 32, 33)
+	var ad []byte
+	if verifrt.Thorough() {
+		// nil, and every length in 0..maxAD plus one and two cipher blocks (+1)
+		if sel := verifrt.Choice("adsel", 2); sel == 0 {
+			ad = verifrt.Bytes("ad", Lens("adn", maxAD, 16, 17, 33))
+		}
+	} else {
+		ad = AD("ad", verifrt.Choice("adsel", maxAD+2), maxAD)
+	}
 	pt := verifrt.Bytes("pt", n)
-	ad := AD("ad", adSel, maxAD)
 	d0 := verifrt.Draws()
 	ct, err := a.Encrypt(pt, ad)
 	verifrt.Assert(err == nil, "Encrypt succeeds")
@@ -64,8 +84,8 @@ func CheckAEAD(a AEAD, prefix []byte, rndLen int, seal SealFn, maxPT, maxAD int)
 // length, replayable with the real primitives); truncations, extensions and associated
 // data of another length are arbitrary. tagLen is where the documented format puts the tag.
 func CheckAEADReject(a AEAD, tagLen int) {
-	pt := verifrt.Bytes("pt", verifrt.Choice("n", 3))
-	ad := verifrt.Bytes("ad", verifrt.Choice("m", 2))
+	pt := verifrt.Bytes("pt", Lens("n", 2, 16, 17))
+	ad := verifrt.Bytes("ad", Lens("m", 1, 17))
 	ct0, err := a.Encrypt(pt, ad)
 	verifrt.Assert(err == nil, "Encrypt succeeds")
 	verifmodels.AdversaryPhase()
@@ -86,7 +106,7 @@ func CheckAEADReject(a AEAD, tagLen int) {
 		ct = append(append([]byte{}, ct0...), verifrt.Bytes("ext", 1+verifrt.Choice("extn", 2))...)
 		ad2 = ad
 	default:
-		l := verifrt.Choice("adlen", 3)
+		l := Lens("adlen", 2, 16, 17, 18)
 		verifrt.Assume(l != len(ad))
 		ct = ct0
 		ad2 = verifrt.Bytes("ad2", l)
